@@ -1,5 +1,5 @@
 import MuscleModel.Pulse.Ops
-import MuscleModel.Pulse.Proofs19
+import MuscleModel.Pulse.Proofs20
 
 /-!
 # C20 — Pulse callbacks fire for every due node and never before their time
@@ -695,10 +695,12 @@ PROVED:
   of the node, length of its NEEDSRECALC list).
 * the bounds `B` and `N` exist in every forest with finite support (`sweeps_terminate_finite_support`: `FSupp M`, all parent pointers among
   the ids below `M`, gives a bounded height function and lists of length `≤ M`, hence termination of both sweeps for every `d > B`).
+* finite support holds in every reachable state (`finite_support_reachable`, `M = opsBound ops`), so in reachable quiet states both sweeps
+  terminate for every `d` above the height bound (`sweeps_terminate_reachable`; after a `gpt`-free history with no hypothesis left,
+  `sweeps_terminate_first_sweep`).
 STILL MISSING:
-(i) finite support as a fact about reachable states (`FSupp M` for every state reached by `runOps` from `World.init`, `M` above every id
-    mentioned in the operations and their scripts): not proved — it needs the invariant "every queued script only mentions ids below `M`"
-    through both sweeps;
+(i) `Inv` and `V` for histories that contain `gpt` operations (they need the discipline verdict, see `wakeup_is_min_reachable`); an explicit
+    value of the height bound `B` in terms of the history (it exists, `heightLe_of_fsupp`);
 (ii) scripts that are not quiet (attach changes the height function). -/
 
 /-- fuel `d`: with a height function bounded by `B`, every `ReschedulePulseChild(child, whichList)` call on a node `p` completes with any
@@ -772,6 +774,47 @@ example : ∃ B, ∀ d, B < d →
         ∃ k, ∀ k', k ≤ k' → ∃ res, managerGpt 1000 d k' (World.init 1000) root now = some res) :=
   sweeps_terminate_finite_support 1000 0 (World.init 1000)
     (fun c p h => by simp [World.init, Node.fresh] at h) (inv_init 1000) (v_init 1000) (finite_height_init 1000)
+
+/-- FINITE SUPPORT OF REACHABLE STATES.  `opsBound ops` = 1 + the largest node id that an `attach` of the history mentions — at top level
+    or inside a queued script (0 if there is none; only `attach` creates a parent pointer).  In every state reached from the initial
+    state by ANY history — all operations, both sweeps, whatever the scripts do — all parent pointers live among the ids below it. -/
+theorem finite_support_reachable (never d k : Nat) (ops : List Op) (w : World)
+    (h : runOps never d k (World.init never) ops = some w) : FSupp (opsBound ops) w.f :=
+  (runOps_fsq never d k (opsBound ops) ops _ w (fsq_init never _) (fun o ho => opBound_le_opsBound ops o ho) h).1
+
+/-- `sweeps_terminate_finite_support` in a reachable state: finite support and the height function are discharged from reachability.
+    `Inv` and `V` stay hypotheses for histories that contain `gpt` operations (see `wakeup_is_min_reachable`); `sweeps_terminate_first_sweep`
+    below has nothing left. -/
+theorem sweeps_terminate_reachable (never d0 k0 : Nat) (ops : List Op) (w : World)
+    (hreach : runOps never d0 k0 (World.init never) ops = some w) (hi : Inv never w.f) (hV : V w.f) :
+    ∃ B, ∀ d, B < d →
+      (PQuiet w → ∀ root t, ∃ k, ∀ k', k ≤ k' → ∃ w', managerPulse never d k' w root t = some w') ∧
+      (GQuiet w → ∀ root now, (w.f root).parent = none →
+        ∃ k, ∀ k', k ≤ k' → ∃ res, managerGpt never d k' w root now = some res) :=
+  sweeps_terminate_finite_support never (opsBound ops) w (finite_support_reachable never d0 k0 ops w hreach) hi hV
+    (finite_height_reachable never d0 k0 ops w hreach)
+
+/-- after any `gpt`-free history (attach / detach / destroy / invalidate / change of request / scripts / pulse sweeps with arbitrary
+    scripts) NO hypothesis about the state is left: there is a `B` such that for every `d > B` the next pulse sweep (if the queued `Pulse`
+    scripts are quiet) and the next recalculation sweep from a root (if the queued `GetPulseTime` scripts are quiet) complete with all
+    sufficiently large fuels `k`. -/
+theorem sweeps_terminate_first_sweep (never d0 k0 : Nat) (ops : List Op) (w : World)
+    (hg : ∀ o ∈ ops, ∀ r n, o ≠ .gpt r n)
+    (hreach : runOps never d0 k0 (World.init never) ops = some w) :
+    ∃ B, ∀ d, B < d →
+      (PQuiet w → ∀ root t, ∃ k, ∀ k', k ≤ k' → ∃ w', managerPulse never d k' w root t = some w') ∧
+      (GQuiet w → ∀ root now, (w.f root).parent = none →
+        ∃ k, ∀ k', k ≤ k' → ∃ res, managerGpt never d k' w root now = some res) := by
+  obtain ⟨hi, hv⟩ := inv_v_history_gptfree never d0 k0 ops _ w hg (inv_init never) (v_init never) hreach
+  exact sweeps_terminate_reachable never d0 k0 ops w hreach hi hv
+
+/-- non-vacuity: the bound of a small history with a scripted attach, and a concrete reachable state to which the theorems apply -/
+example : opsBound [.attach 1 0, .attach 2 1, .script true 2 [.attach 5 1], .setReq 7 3] = 6 := by decide
+
+example : (runOps 1000 8 40 (World.init 1000) [.attach 1 0, .attach 2 1, .setReq 0 50]).isSome = true := by decide +kernel
+
+example (w : World) (h : runOps 1000 8 40 (World.init 1000) [.attach 1 0, .attach 2 1, .setReq 0 50] = some w) :
+    FSupp 3 w.f := finite_support_reachable 1000 8 40 _ w h
 
 theorem fuel_irrelevant_partial (never d k k' : Nat) (hk : k ≤ k') :
     (∀ (w r : World) (n now : Nat), pulseAux never d k w n now = some r → pulseAux never d k' w n now = some r) ∧
